@@ -59,7 +59,7 @@ func (w *blockingWriter) Write(p []byte) (int, error) {
 
 func run(c *vf.Ctx) {
 	c.Rule("placement = (gate holder kind, hold duration D, offset of the Close call inside D, repetition) on a real single-node Store in its own process; holder 'backup' = binary Backup into a writer that blocks for D (holds the gate legitimately), 'snapshot' = user snapshot slowed by a hook sleep inside the gated section, 'none' = nobody. Measured: duration of Store.Close and the lag L between holder release and Close returning. non-trivial = the gate was observed held when Close was called; distinct by (holder, D, offset)")
-	c.Assume("bounded-progress restatement with wide margins: L <= 1.5 s is prompt, L >= 5 s is late, in between inconclusive; for D >= 12 s Close must fail between 8 s and 13.5 s after the call; wall-clock used only with these margins")
+	c.Assume("bounded-progress restatement with wide margins: L <= 1.5 s is prompt, L >= 5 s is late, in between inconclusive; when the holder keeps the gate for >= 12 s after the Close call, Close must fail between 8 s and 13.5 s after the call (9-12 s: inconclusive); wall-clock used only with these margins")
 	holds := []int{0, 20, 200, 1000, 3000, 7000}
 	if !c.Quick() {
 		holds = append(holds, 5500, 9000, 12000, 15000)
@@ -143,10 +143,13 @@ func run(c *vf.Ctx) {
 			} else {
 				c.Inconclusive("no-holder close in the grey band")
 			}
-		case o.P.HoldMs >= 12000:
+		case o.P.HoldMs-o.P.CloseAtMs > 9000 && o.P.HoldMs-o.P.CloseAtMs < 12000:
+			// the holder releases about when the limit expires: either outcome is right
+			c.Inconclusive("remaining hold within 9-12 s of the close call")
+		case o.P.HoldMs-o.P.CloseAtMs >= 12000:
 			// holder outlives the limit: Close must give up around 10 s
 			if o.CloseErr == "" {
-				c.Violation("close-waited-beyond-limit", fmt.Sprintf("holder kept the gate %d ms but Close returned nil after %.0f ms", o.P.HoldMs, o.CloseMs), o)
+				c.Violation("close-waited-beyond-limit", fmt.Sprintf("holder kept the gate for another %d ms after the Close call but Close returned nil after %.0f ms", o.P.HoldMs-o.P.CloseAtMs, o.CloseMs), o)
 			} else if o.CloseMs < 8000 {
 				c.Violation("close-gave-up-early", fmt.Sprintf("Close failed after only %.0f ms (limit is about 10 s): %s", o.CloseMs, o.CloseErr), o)
 			} else if o.CloseMs > 13500 {
